@@ -78,7 +78,30 @@ def judge_parse_format(ctx, case):
                      mech="C17.parse_format." + (bad[0][0] if bad else ""))
 
 
+_WK = {}
+
+
+def wallet_kind(seed, tn, kind, root_path):
+    """Wallets of other kinds than 'private master': imported from an extended key at depth len(root_path), private
+    or watch-only.  Returns (wallet, reference root XKey, is_private)."""
+    from btc_hd_wallet.base_wallet import BaseWallet
+    key = (seed, tn, kind, tuple(root_path))
+    if key not in _WK:
+        if len(_WK) > 16:
+            _WK.clear()
+        root = rb32.derive(rb32.master(seed), root_path)
+        if kind == "prv-import":
+            w = BaseWallet.from_extended_key(root.xprv(rb32.version_for("prv", tn, 44)))
+            _WK[key] = (w, root, True)
+        else:
+            w = BaseWallet.from_extended_key(root.xpub(rb32.version_for("pub", tn, 84)))
+            _WK[key] = (w, root.neuter(), False)
+    return _WK[key]
+
+
 def judge_by_path(ctx, case):
+    if case.get("wkind", "master") != "master":
+        return judge_by_path_kind(ctx, case)
     w, m = wallet(case["seed"], case["testnet"])
     lst, s = case["list"], case["s"]
     exp = rb32.derive(m, lst)
@@ -96,6 +119,28 @@ def judge_by_path(ctx, case):
     if str(node) != rpath.fmt(lst, "m"):
         bad.append(("str_node", rpath.fmt(lst, "m"), str(node)))
     return ctx.judge("by_path", not bad, case, exp.fields(), bad, cls="bp|len%d|%s" % (len(lst), case.get("tag", "")),
+                     mech="C17.by_path." + (bad[0][0] if bad else ""))
+
+
+def judge_by_path_kind(ctx, case):
+    """by_path on wallets imported from a (non-)master extended key, private or watch-only: the path is relative to
+    THAT wallet's root node and every component must be applied, in order."""
+    w, root, private = wallet_kind(case["seed"], case["testnet"], case["wkind"], case["root_path"])
+    lst, s = case["list"], case["s"]
+    exp = rb32.derive(root, lst)
+    try:
+        node = w.by_path(s)
+    except Exception as e:  # noqa
+        return ctx.judge("by_path", False, case, exp.fields(), e, cls="bp|%s|len%d|raised" % (case["wkind"], len(lst)), mech="C17.by_path.raised")
+    bad = bridge.compare_node(node, exp, case["testnet"], private)
+    it = w.master
+    for i in lst:
+        it = it.ckd(index=i)
+    if bytes(it.key) != bytes(node.key) or it.depth != node.depth or it.index != node.index:
+        bad.append(("iterated_ckd", bridge.node_obs(it), bridge.node_obs(node)))
+    if str(node) != rpath.fmt(lst, "m" if private else "M"):
+        bad.append(("str_node", rpath.fmt(lst, "m" if private else "M"), str(node)))
+    return ctx.judge("by_path", not bad, case, exp.fields(), bad, cls="bp|%s|root%d|len%d" % (case["wkind"], len(case["root_path"]), len(lst)),
                      mech="C17.by_path." + (bad[0][0] if bad else ""))
 
 
@@ -182,6 +227,16 @@ def run(ctx):
         L = rnd.randrange(0, 6)
         lst = [rnd.choice(EDGE) if rnd.random() < 0.3 else rnd.randrange(0, 1 << 32) for _ in range(L)]
         judge_by_path(ctx, {"seed": seed, "testnet": tn, "list": lst, "s": spell(rnd, lst, rnd.choice(["m", "M"])), "tag": "random"})
+    for _ in range(ctx.scale(360, 30000)):
+        kind = rnd.choice(["prv-import", "pub-import"])
+        rp = [rnd.choice([44 + H, 84 + H, 0, 1, H]) for _ in range(rnd.choice([0, 1, 2, 3, 3]))]
+        L = rnd.randrange(0, 6)
+        if kind == "pub-import":
+            lst = [rnd.choice([0, 1, 2, H - 1, rnd.randrange(0, H)]) for _ in range(L)]
+        else:
+            lst = [rnd.choice(EDGE) if rnd.random() < 0.3 else rnd.randrange(0, 1 << 32) for _ in range(L)]
+        judge_by_path(ctx, {"seed": seed, "testnet": tn, "wkind": kind, "root_path": rp, "list": lst,
+                            "s": spell(rnd, lst, rnd.choice(["m", "M"])), "tag": "imported"})
     # ---- malformed: single fault at each level
     faults = [("junk", t) for t in JUNK] + [("badnum", t) for t in BADNUM] + [("empty-inner", "")]
     for fault, tok in faults:
